@@ -61,6 +61,12 @@ CACHED = {(6, 43): (6, 0), (7, 50): (7, 1), (8, 57): (8, 6)}
 # the other viewer's cache still has an older state of the same objects (another CRC, not linked to anything)
 CACHED_OLDER = {(k[0], k[1] + 1000): (v[0], 0) for k, v in CACHED.items()}
 ALL_CACHED = {**CACHED, **CACHED_OLDER}
+# not everything in the scene is a plain prim: trees, grass and particle systems are objects like any other (and, unlike avatars,
+# die with the object they are linked to)
+def pcode_of(full):
+    return {FULL[3]: T.PCode.NEW_TREE, FULL[4]: T.PCode.TREE, FULL[5]: T.PCode.GRASS, FULL[2]: T.PCode.PARTICLE_SYSTEM}.get(full, T.PCode.PRIMITIVE)
+
+
 NAMEVALUES = {
     "both": "FirstName STRING RW SV Jane\nLastName STRING RW SV Doe\nTitle STRING RW SV x",
     "first": "FirstName STRING RW SV Jane",
@@ -105,7 +111,7 @@ def object_update(handle, local, full, parent):
         msg = Message(
             "ObjectUpdate",
             Block("RegionData", RegionHandle=handle, TimeDilation=123),
-            Block("ObjectData", ID=local, FullID=full, PCode=int(T.PCode.PRIMITIVE), Scale=Vector3(0.5, 0.5, 0.5),
+            Block("ObjectData", ID=local, FullID=full, PCode=int(pcode_of(full)), Scale=Vector3(0.5, 0.5, 0.5),
                   UpdateFlags=268568894, PathCurve=16, ParentID=parent, ProfileCurve=1, PathScaleX=100, PathScaleY=100,
                   CRC=local * 7 + 1, NameValue=None, TextureEntry=b"", TextColor=b"\x00" * 4, ExtraParams=b"\x00",
                   fill_missing=True),
@@ -126,7 +132,7 @@ def avatar_block(local, full, parent, nv):
 
 
 def prim_block(local, full, parent):
-    return Block("ObjectData", ID=local, FullID=full, PCode=int(T.PCode.PRIMITIVE), Scale=Vector3(0.5, 0.5, 0.5),
+    return Block("ObjectData", ID=local, FullID=full, PCode=int(pcode_of(full)), Scale=Vector3(0.5, 0.5, 0.5),
                  UpdateFlags=268568894, PathCurve=16, ParentID=parent, ProfileCurve=1, PathScaleX=100, PathScaleY=100,
                  CRC=local * 7 + 1, NameValue=None, TextureEntry=b"", TextColor=b"\x00" * 4, ExtraParams=b"\x00",
                  fill_missing=True)
@@ -218,7 +224,7 @@ def compressed_update(handle, local, full, parent):
         flags = T.CompressedFlags(extra | (int(T.CompressedFlags.PARENT_ID) if parent else 0))
         for attempt in range(40):
             d = gen_spec.Deriver(random.Random(f"{key}:{attempt}"), size_budget=8,
-                                 top_overrides={"Flags": flags, "PCode": T.PCode.PRIMITIVE, "ID": local, "FullID": full,
+                                 top_overrides={"Flags": flags, "PCode": pcode_of(full), "ID": local, "FullID": full,
                                                 "CRC": local * 7 + 1})
             try:
                 val = d.gen(ser.TEMPLATE)
